@@ -1138,6 +1138,18 @@ pub fn c11(c: &mut Ctx) {
                 if !*ok {
                     c.v("C11", "upgrade-none-while-referenced", e.seq, format!("upgrade() of a weak handle to actor {a} returned None although a strong reference exists"));
                 }
+            } else if e.seq < ar.closing_seq() && h.ops.iter().any(|o| {
+                // a message (or stop marker) that was accepted before the upgrade and has not been taken yet sits in
+                // the mailbox, and a queued envelope / marker holds a strong reference: "or queued message" of C11
+                o.a == Some(*a)
+                    && o.ret_ok()
+                    && o.ret.as_ref().map(|r| r.0 < e.seq).unwrap_or(false)
+                    && ((o.tag.is_tell() && o.mid.and_then(|m| h.msgs.get(&m)).map(|m| m.henter.first().map(|x| x.0 > e.seq).unwrap_or(true)).unwrap_or(true)) || o.tag == OpTag::Stop)
+            }) {
+                c.chk.hit("C11");
+                if !*ok {
+                    c.v("C11", "upgrade-none-while-message-queued", e.seq, format!("upgrade() of a weak handle to actor {a} returned None although an accepted message or stop request is still queued and the actor has not begun to end"));
+                }
             } else if !op_in_flight && ar.joined.as_ref().map(|j| j.0 < e.seq).unwrap_or(false) {
                 // a send whose push came after the actor had ended leaves its envelope - which holds a strong
                 // reference - in the dead mailbox for ever: by the letter of the property a strong reference
